@@ -57,6 +57,7 @@ type Op struct {
 	ViaRpc     bool         `json:"viarpc,omitempty"`     // root upsert delivered as the input of rpc zzin whose handler upserts it into the store
 	Tree       *model.Tree  `json:"tree,omitempty"`       // payload at a root/container/list-entry entry point
 	List       *model.ListT `json:"list,omitempty"`       // payload at a list entry point
+	Paths      []model.Path `json:"paths,omitempty"`      // batch-delete: containers, none inside another; all are selected first (Find), then deleted in this order through those selections
 	Keys       [][]string   `json:"keys,omitempty"`       // sweep: At is a list; its entries are walked once (First/Next), then the ones with these keys are deleted, in this order, through the selections the walk produced
 }
 
@@ -71,6 +72,9 @@ func (o Op) String() string {
 	s += " @" + o.At.String()
 	if len(o.Keys) > 0 {
 		s += fmt.Sprintf(" keys%v", o.Keys)
+	}
+	for _, p := range o.Paths {
+		s += " " + p.String()
 	}
 	if o.SrcKind != "" {
 		s += " from " + o.SrcKind
@@ -205,7 +209,9 @@ type Result struct {
 	Panic     interface{}
 	PanicAt   string
 	Stack     string
-	NotFound  bool // entry point did not resolve
+	NotFound  bool       // entry point did not resolve
+	Walk      [][]string // list-session: keys met by a second walk through the kept list selection
+	Walked    bool
 	SourceErr bool // the source document could not be read
 }
 
@@ -261,6 +267,79 @@ func Exec(env *Env, st store.Store, o Op, ss *simnode.Session, hook ReaderHook) 
 	if o.Kind == "delete" {
 		opStart(ss)
 		res.Err = sel.Delete()
+		return
+	}
+	if o.Kind == "batch-delete" {
+		var sels []*node.Selection
+		for _, p := range o.Paths {
+			ps, err := FindSel(b.Root(), p)
+			if err != nil || ps == nil {
+				res.Err = fmt.Errorf("find %s: %v", p, err)
+				res.NotFound = ps == nil && err == nil
+				return
+			}
+			sels = append(sels, ps)
+		}
+		opStart(ss)
+		for _, ps := range sels {
+			if res.Err = ps.Delete(); res.Err != nil {
+				return
+			}
+		}
+		return
+	}
+	if o.Kind == "list-session" {
+		// one list selection kept across: walk, delete some entries through the walk's
+		// selections, put entries with the same keys back through the list selection,
+		// walk again
+		found := map[string]*node.Selection{}
+		item, err := sel.First()
+		for ; err == nil && item.Selection != nil; item, err = item.Next() {
+			var ks []string
+			for _, k := range item.Key {
+				ks = append(ks, k.String())
+			}
+			found[strings.Join(ks, "\x00")] = item.Selection
+		}
+		if err != nil {
+			res.Err = fmt.Errorf("walking %s: %w", o.At, err)
+			return
+		}
+		src, _, err := SourceNode(o, false, hook)
+		if err != nil {
+			res.Err = fmt.Errorf("source: %w", err)
+			res.SourceErr = true
+			return
+		}
+		if ss != nil {
+			src = ss.Wrap(src, "S", nil, "")
+		}
+		opStart(ss)
+		for _, k := range o.Keys {
+			es := found[strings.Join(k, "\x00")]
+			if es == nil {
+				res.Err = fmt.Errorf("walking the entries of %s with First/Next did not meet entry %v", o.At, k)
+				return
+			}
+			if res.Err = es.Delete(); res.Err != nil {
+				return
+			}
+		}
+		if res.Err = sel.UpsertFrom(src); res.Err != nil {
+			return
+		}
+		item, err = sel.First()
+		for ; err == nil && item.Selection != nil; item, err = item.Next() {
+			var ks []string
+			for _, k := range item.Key {
+				ks = append(ks, k.String())
+			}
+			res.Walk = append(res.Walk, ks)
+		}
+		res.Walked = true
+		if err != nil {
+			res.Err = fmt.Errorf("second walk of %s: %w", o.At, err)
+		}
 		return
 	}
 	if o.Kind == "sweep" {
@@ -423,6 +502,35 @@ func ApplyModel(t *model.Tree, o Op) (out model.Outcome, resolved bool) {
 	switch o.Kind {
 	case "delete":
 		t.Delete(o.At)
+		return out, true
+	case "batch-delete":
+		for _, p := range o.Paths {
+			if l, ok := t.Resolve(p); !ok || l.Tree == nil {
+				return out, false
+			}
+		}
+		for _, p := range o.Paths {
+			t.Delete(p)
+		}
+		return out, true
+	case "list-session":
+		if loc.List == nil || loc.Tree != nil || o.List == nil {
+			return out, false
+		}
+		for _, k := range o.Keys {
+			if _, e := loc.List.Find(k); e == nil {
+				return out, false
+			}
+		}
+		for _, k := range o.Keys {
+			p := append(append(model.Path(nil), o.At[:len(o.At)-1]...), model.Step{Name: o.At[len(o.At)-1].Name, Key: k})
+			t.Delete(p)
+		}
+		if l2, ok := t.Resolve(o.At); ok && l2.List != nil {
+			model.MergeList(l2.List, o.List, model.Upsert, &out)
+		} else {
+			return out, false
+		}
 		return out, true
 	case "sweep":
 		if loc.List == nil || loc.Tree != nil {
